@@ -18,12 +18,17 @@ ASSUMPTIONS = ["parameter values are compared with ==; the universe uses ints, e
 def run(ctx):
     from zigpy_zboss.utils import deduplicate_commands, IndicationListener
     r = ctx.rng
-    classes, doms = cmduniv.universe()
+    classes, doms = cmduniv.universe(optional=True)
     pats = {cls: cmduniv.all_patterns(cls, doms[cls]) for cls in classes}
     conc = {cls: cmduniv.all_concrete(cls, doms[cls]) for cls in classes}
-    allp = [p for cls in classes for p in pats[cls]]
     allc = [c for cls in classes for c in conc[cls]]
-    ctx.rule = ("all %d partial patterns x all %d concrete commands (two real response types, cross-type pairs "
+    # patterns: every partial command, plus the complete commands that leave optional trailing parameters out
+    # (`wait_for_response(Rsp(...))` without `partial=True`): what they leave out is unspecified all the same
+    nonpartial = [c for c in allc if any(getattr(c, p.name) is None for p in type(c).schema)]
+    allp = [p for cls in classes for p in pats[cls]] + nonpartial
+    ctx.count("non-partial patterns with omitted optional parameters", len(nonpartial))
+    ctx.rule = ("all %d patterns x all %d concrete commands (three real response types, one with optional trailing "
+                "parameters given / omitted in complete and partial commands, cross-type pairs "
                 "included) for matches; pattern collections: every list of length <= 2 (thorough: <= 3) over a "
                 "24-pattern subset plus random lists of length <= 7 with duplicates and chains, for de-duplication; "
                 "non-trivial = collection with a duplicate or a general->specific pair; distinct by encoded input"
@@ -48,8 +53,8 @@ def run(ctx):
     for p in allp:
         if not p.matches(p):
             ctx.counterexample("not-reflexive", dict(pattern=enc(p)), True, False, "a pattern does not match itself")
-    for _ in range(ctx.scale(3000, 60000)):
-        a, b = r.choice(allp), r.choice(allp)
+    for k in range(ctx.scale(6000, 60000)):
+        a, b = r.choice(nonpartial if k % 4 == 0 else allp), r.choice(allp)
         c = r.choice(allc)
         if a.matches(b) and b.matches(c) and not a.matches(c):
             ctx.counterexample("not-transitive", dict(a=enc(a), b=enc(b), c=enc(c)), True, False, "matching is not transitive")
@@ -112,17 +117,38 @@ def run(ctx):
                 break
         if a is not None and a != impl:
             ctx.mismatch("dedup", dict(patterns=[enc(p) for p in ps]), a, impl)
-    # 3. the same through the API: register_indication_listeners + frame_received of a real ZBOSS
+    # 3. the same through the API: register_indication_listeners + frame_received of a real ZBOSS; in every
+    #    second history a one-shot waiter for the same command is registered before each reception (it is resolved and
+    #    goes away - the listener under test must not notice)
     from props import c12
     multi = [ps for ps in colls if len(ps) >= 2]
-    for ps in r.sample(multi, min(len(multi), ctx.scale(120, 1500))):
-        outs = c12.run_history([("B", 1, ps)] + [("R", c) for c in allc], classes)[1:]
-        ctx.case(("api", tuple(enc(p) for p in ps)), sample=dict(patterns=[enc(p) for p in ps], via="ZBOSS.register_indication_listeners"))
+    for k, ps in enumerate(r.sample(multi, min(len(multi), ctx.scale(120, 1500)))):
+        with_waiters = k % 2 == 1
+        if with_waiters:
+            evs, idx = [("W", 1000, [r.choice(allp)]), ("B", 1, ps)], []
+            for j, c in enumerate(allc):
+                qs = [q for q in allp if q.matches(c)]
+                if r.random() < 0.5:
+                    evs.append(("W", 2000 + j, [r.choice(qs)]))
+                    if r.random() < 0.3:
+                        evs.append(("W", 3000 + j, [r.choice(qs)]))
+                idx.append(len(evs)); evs.append(("R", c))
+                if r.random() < 0.5:
+                    evs.append(("Z",))
+            allouts = c12.run_history(evs, classes)
+            outs = [[e for e in allouts[i] if e.startswith("c1=")] for i in idx]
+        else:
+            outs = c12.run_history([("B", 1, ps)] + [("R", c) for c in allc], classes)[1:]
+        ctx.case(("api", with_waiters, tuple(enc(p) for p in ps)),
+                 sample=dict(patterns=[enc(p) for p in ps], via="ZBOSS.register_indication_listeners", one_shot_waiters=with_waiters))
         ctx.count("api-listener-size=%d" % min(len(ps), 8))
+        ctx.count("api-with-one-shot-waiters=%s" % with_waiters)
         for c, o in zip(allc, outs):
             want = ["c1=" + enc(c)] if any(cmduniv.spec_matches(p, c) for p in ps) else []
-            if o != want:
-                ctx.counterexample("api-listener-set", dict(patterns=[enc(p) for p in ps], command=enc(c)), want, o,
+            # a command with optional trailing parameters is delivered re-parsed (an omitted list may come back empty):
+            # for those only the number of reactions is compared
+            if (len(o) != len(want)) if any(p.optional for p in type(c).schema) else (o != want):
+                ctx.counterexample("api-listener-set", dict(patterns=[enc(p) for p in ps], command=enc(c), one_shot_waiters=with_waiters), want, o,
                                    "a listener registered through the API does not react exactly once to exactly the matched commands")
                 break
 
